@@ -93,7 +93,7 @@ Lemma safe_dsge_read k st (Q : Z -> sst -> Prop) :
   (forall v st1, dsge_read k st = (Ok v, st1) -> Q v st1) -> safe (dsge_read k) st Q.
 Proof.
   intro Hq. unfold safe. destruct (dsge_read k st) as [[v|e] st1] eqn:E; [apply Hq; reflexivity|].
-  unfold dsge_read in E. destruct (tget (st_pos st) k); [|inversion E; split; discriminate].
+  unfold dsge_read in E. set (n := pos_of (st_pos st) k) in *.
   pose proof (extend_genes_no_ae (S n) (st_src st) (match tget (st_dna st) k with Some l => l | None => [] end) n) as Hn.
   destruct (extend_genes _ _ _ _) as [[l' s']|e']; [|inversion E; subst; split; intro X; subst; exact Hn].
   destruct (nth_error l' n); inversion E; split; discriminate.
